@@ -212,7 +212,8 @@ Definition select_rows (t : table) (k : key) : res tres :=
       if all_bool l then
         if negb (Nat.eqb (nrows t) (length l)) then Err EOther
         else rows_of t k
-      else Ok TNone                                    (* no branch for a list of ints: falls through *)
+      else if all_int l then rows_of t k               (* {type(e) for e in key} == {int} (repaired: /repo 406820c) *)
+      else Ok TNone                                    (* any other list falls off the end of __getitem__ *)
   | IxSlice _ _ _ => rows_of t k
   | IxIdxV _ => rows_of t k
   | IxUntypedV => Err EOther                            (* key.schema().kind on None: AttributeError *)
